@@ -153,7 +153,11 @@ public:
 
   QUILL_ATTRIBUTE_HOT void commit_read() noexcept
   {
-    if (static_cast<integer_type>(_reader_pos - _atomic_reader_pos.load(std::memory_order_relaxed)) >= _bytes_per_batch)
+    // Besides the batching threshold we also publish when everything that was visible to the reader
+    // has been consumed. Otherwise less than a batch of consumed bytes would stay unpublished
+    // forever on an empty queue and a producer waiting for exactly that space would never resume
+    if ((static_cast<integer_type>(_reader_pos - _atomic_reader_pos.load(std::memory_order_relaxed)) >= _bytes_per_batch) ||
+        (_reader_pos == _writer_pos_cache))
     {
       _atomic_reader_pos.store(_reader_pos, std::memory_order_release);
 
